@@ -18,6 +18,7 @@ import (
 	"fmt"
 	"math"
 	"math/bits"
+	"strings"
 
 	"github.com/EliCDavis/polyform/math/geometry"
 	"github.com/EliCDavis/polyform/modeling"
@@ -175,6 +176,27 @@ func (s ElemSet) build() built {
 		}
 		m := modeling.NewTriangleMesh(idx).SetFloat3Attribute(modeling.PositionAttribute, latTable())
 		return built{scope(m), meshTree(m)}
+	case "triangles-rest":
+		// the indexed triangles live in a second float3 attribute; Position holds other triangles (the
+		// lattice sheared and permuted: other planes, other bounds)
+		var idx []int
+		for _, e := range s.Elems {
+			idx = append(idx, e...)
+		}
+		skew := make([]V3, 27)
+		for i := range skew {
+			p := latPoint(i)
+			skew[i] = v3(p.Z()+3, p.X()+0.5*p.Y(), p.Y()-p.X())
+		}
+		m := modeling.NewTriangleMesh(idx).SetFloat3Attribute(modeling.PositionAttribute, skew).SetFloat3Attribute("RestPosition", latTable())
+		els := make([]trees.Element, m.PrimitiveCount())
+		m.ScanPrimitives(func(i int, p modeling.Primitive) { els[i] = p.Scope("RestPosition") })
+		return built{els, func(d int) *trees.OctTree {
+			if d == autoDepth {
+				d = trees.OctreeDepthFromCount(m.PrimitiveCount())
+			}
+			return m.OctTreeWithAttributeAndDepth("RestPosition", d)
+		}}
 	case "strip":
 		m := modeling.NewMesh(modeling.LineStripTopology, append([]int{}, s.Elems[0]...)).SetFloat3Attribute(modeling.PositionAttribute, latTable())
 		return built{scope(m), meshTree(m)}
@@ -593,6 +615,17 @@ func (k *checker) closest(so *setOracle, tree *trees.OctTree, depth, qi int, sco
 		out = "ok-primitive-differs-from-exact"
 	}
 	kind := so.set.Kind
+	if !primExact {
+		// every well-formed element's own closest point is the geometric one on the pinned tree (the
+		// outcome below never occurred there); an element that answers with a point off itself makes
+		// index and scan agree on a wrong answer
+		site := "trees.Element.ClosestPoint"
+		if strings.HasPrefix(kind, "triangles") {
+			site = "modeling.scopedTri.ClosestPoint"
+		}
+		c.Violate(core.Violation{Site: site, Clause: "the closest point is the closest point of the element (exact geometry)", Class: kind + "/an-element's-own-closest-point-is-off-the-element",
+			Detail: fmt.Sprintf("set=%v depth=%d q=%v: scan over the elements' own closest points %.6g, exact geometry %.6g; per-element %v", so.set.Elems, depth, q, dScan, dTrue, so.distEl[qi]), Case: cs})
+	}
 	distOK := math.Abs(dIdx-dScan) <= tol
 	if !distOK {
 		out = "mismatch"
@@ -601,7 +634,7 @@ func (k *checker) closest(so *setOracle, tree *trees.OctTree, depth, qi int, sco
 			// the scan's own minimum is not the true distance: an element reports a closest point that is
 			// not on the element, so the index's bound-based pruning and the scan part ways
 			class = kind + "/an-element's-own-closest-point-is-off-the-element"
-			if so.set.Kind == "triangles" {
+			if strings.HasPrefix(so.set.Kind, "triangles") {
 				site = "modeling.scopedTri.ClosestPoint"
 			}
 		}
@@ -811,6 +844,20 @@ func families(c *core.Ctx) []family {
 	fams = append(fams, family{"triangles", fmt.Sprintf("every multiset of 1..2 of the %d triangles with corners in the ten-point corner set %v (degenerate ones included)", len(tris), cornerSet), func(y func(ElemSet) bool) {
 		multisets(len(tris), 2, func(t []int) bool {
 			s := ElemSet{Kind: "triangles"}
+			for _, i := range t {
+				s.Elems = append(s.Elems, tris[i])
+			}
+			return y(s)
+		})
+	}})
+	fams = append(fams, family{"triangles-rest", "every triangle of that set, and every 7th pair, indexed over a second float3 attribute (OctTreeWithAttributeAndDepth) while Position holds other triangles", func(y func(ElemSet) bool) {
+		n := 0
+		multisets(len(tris), 2, func(t []int) bool {
+			n++
+			if len(t) == 2 && n%7 != 0 {
+				return true
+			}
+			s := ElemSet{Kind: "triangles-rest"}
 			for _, i := range t {
 				s.Elems = append(s.Elems, tris[i])
 			}
